@@ -1,5 +1,6 @@
 import PBProofs.Lemmas.Updater
 import PBProofs.Lemmas.UpdaterNames
+import PBProofs.Lemmas.UpdaterHistory
 import PB.Gen.Updater
 /-
 C19 — The updater selects the prescribed version and never purges what is needed.
@@ -313,9 +314,39 @@ theorem reachable_one_current_release (ops : List Op) :
   have h1 := run_all oneCurrent_preserved ops {} (stAll_init _) p hp
   exact (reachable_inv ops p hp).1.eq_of_ver ha hb (h1 a ha b hb hac hbc)
 
+/-- **The flags say what the history announced.** In the state after any history, for every resource: an entry is
+    flagged `CurrentRelease` iff it is the version most recently announced as the current release of that resource
+    (`Spec.currentRelease`, read off the calls, never off the flags), and that version is listed. In particular a
+    current release that moves back to an already known, older version (a pulled release) takes the flag with it. -/
+theorem history_current_release (ops : List Op) :
+    ∀ p ∈ (run {} ops).res,
+      (∀ rv ∈ p.2.versions, (rv.cur = true ↔ currentRelease p.1 ops = some rv.ver)) ∧
+      (∀ v, currentRelease p.1 ops = some v → ∃ rv ∈ p.2.versions, rv.ver = v) := by
+  intro p hp
+  have h := run_curInv p.1 ops
+  unfold CurInv at h
+  rw [St.get_of_mem (run_ids ops {} idsNodup_init) hp] at h
+  exact h
+
+/-- The current release of a history is the version named by the last announcement for the resource — read off the
+    call arguments alone (`Spec.lastAnnounced`) — or nothing, when a `Purge` has dropped that version from the
+    resource since; in a history without `Purge` it is exactly the version announced last. -/
+theorem current_release_last_announced (id : Str) (ops : List Op) :
+    (currentRelease id ops = none ∨ currentRelease id ops = lastAnnounced id ops) ∧
+    ((∀ o ∈ ops, ∀ k, o ≠ .purge k) → currentRelease id ops = lastAnnounced id ops) :=
+  ⟨runCur_lastAnnounced id ops {} none none (Or.inl rfl), fun h => runCur_lastAnnounced_nopurge id ops {} none h⟩
+
+/-- In every reachable state the documented order read against the `CurrentRelease` flags (`Prescribed`, what the
+    per-resource theorems above are stated with) and read against the history of announcements (`PrescribedH`)
+    prescribe the same versions — for all registry flags and index settings. -/
+theorem history_orders_agree (ops : List Op) :
+    ∀ p ∈ (run {} ops).res, ∀ fl idx rv,
+      Prescribed fl idx p.2.versions rv ↔ PrescribedH (currentRelease p.1 ops) fl idx p.2.versions rv :=
+  fun p hp _ _ rv => prescribed_iff_H (history_current_release ops p hp).1 rv
+
 /-- After `SelectVersions` in any reachable state, every resource has selected the version the documented order
-    prescribes for its versions, its index and the current registry flags. -/
-theorem history_select_prescribed (ops : List Op) :
+    prescribes for its versions, its index and the current registry flags (the current release being the flagged entry). -/
+theorem history_select_prescribed_flags (ops : List Op) :
     ∀ p ∈ (step (run {} ops) .select).1.res,
       match p.2.selected with
       | none => p.2.versions = []
@@ -334,6 +365,30 @@ theorem history_select_prescribed (ops : List Op) :
     rw [hs] at this
     obtain ⟨rv, hm, hv, hpr⟩ := this
     exact ⟨rv, mem_sortDesc.mpr hm, hv, prescribed_congr (fun x => mem_sortDesc.symm) hpr⟩
+
+/-- After `SelectVersions` at the end of **any history**, every resource has selected the version the documented order
+    prescribes, where "the current release" is the version the history announced last for that resource
+    (`Spec.currentRelease`) — not "some entry whose flag happens to be set". -/
+theorem history_select_prescribed (ops : List Op) :
+    ∀ p ∈ (step (run {} ops) .select).1.res,
+      match p.2.selected with
+      | none => p.2.versions = []
+      | some v => ∃ rv ∈ p.2.versions, rv.ver = v ∧
+          PrescribedH (currentRelease p.1 ops) (run {} ops).fl p.2.index p.2.versions rv := by
+  intro p hp
+  have hf := history_select_prescribed_flags ops p hp
+  simp only [step, St.mapRes] at hp
+  obtain ⟨q, hq, rfl⟩ := List.mem_map.mp hp
+  have hc := (history_current_release ops q hq).1
+  have hc' : ∀ rv ∈ (q.2.selectVersion (run {} ops).fl).versions,
+      (rv.cur = true ↔ currentRelease q.1 ops = some rv.ver) := fun rv hrv => hc rv (mem_sortDesc.mp hrv)
+  simp only [] at hf ⊢
+  cases hs : (q.2.selectVersion (run {} ops).fl).selected with
+  | none => rw [hs] at hf; exact hf
+  | some v =>
+    rw [hs] at hf
+    obtain ⟨rv, hm, hv, hpr⟩ := hf
+    exact ⟨rv, hm, hv, (prescribed_iff_H hc' rv).mp hpr⟩
 
 /-- `Purge(keep)` in any reachable state, for every resource: no file of a required version is removed and no
     required version unlisted; if anything is purged at least `max keep 2` further versions stay; files are removed
@@ -513,6 +568,41 @@ example : (Res.purge { unsortedTail with active := none, selected := some (v 2 2
 -- a whole history: non-canonical spellings are merged, the current release is downloaded, old versions purged
 example : ((run {} history).get (s "app.exe")).map (fun r => (r.selected, r.active, r.versions.map (·.ver), r.disk.length))
     = some (some (v 1 2 0), some (v 1 2 0), [v 1 3 0 "beta", v 1 2 0, v 1 1 0, v 1 0 0], 4) := by decide
+-- the current release moves between known versions: 1.2.0, forward to 1.3.0, back to 1.2.0 (a pulled release) —
+-- the history says 1.2.0, exactly one entry is flagged, and 1.2.0 is selected although the newer 1.3.0 was current before
+example : currentRelease (s "app.exe") rollback = some (v 1 2 0) ∧ lastAnnounced (s "app.exe") rollback = some (v 1 2 0) := by decide
+example : currentRelease (s "app.exe") (rollback.take 7) = some (v 1 3 0) := by decide
+example : ((run {} rollback).get (s "app.exe")).map (fun r => (r.versions.filter (·.cur)).map (·.ver)) = some [v 1 2 0] := by decide
+example : ((step (run {} (rollback.take 7)) .select).1.get (s "app.exe")).map (·.selected) = some (some (v 1 3 0)) := by decide
+example : ((step (run {} rollback) .select).1.get (s "app.exe")).map (·.selected) = some (some (v 1 2 0)) := by decide
+-- an announcement that does not parse withdraws the current release; `AddResources` announces for every resource of the map
+example : currentRelease (s "app.exe") (rollback ++ [.add (s "app.exe") (s "1..2") false true false none]) = none := by decide
+example : currentRelease (s "app.exe") (rollback ++ [.addMany [(s "lib", s "2.0.0"), (s "app.exe", s "v1.1")] false true false none])
+    = some (v 1 1 0) := by decide
+example : currentRelease (s "lib") (rollback ++ [.addMany [(s "lib", s "2.0.0"), (s "app.exe", s "v1.1")] false true false none])
+    = some (v 2 0 0) := by decide
+-- a purge that drops the announced version makes the resource forget it (the announcement is still the last one)
+example : currentRelease (s "app.exe") purgedCurrent = none ∧ lastAnnounced (s "app.exe") purgedCurrent = some (v 1 0 0) ∧
+    currentRelease (s "app.exe") (purgedCurrent.take 7) = some (v 1 0 0) := by decide
+-- why the history matters: on a list with two flagged entries (what a reset that runs only for new versions leaves
+-- behind) the order read against the flags takes the newer flagged entry, the order read against the history does not
+example : Prescribed {} none twoFlags { ver := v 1 3 0, avail := true, cur := true } := by
+  refine .current (fun h => absurd h.1 (by decide)) ⟨by decide, rfl, ?_⟩ (by unfold Sel; decide)
+  intro w hw _
+  simp only [twoFlags, List.mem_cons, List.not_mem_nil, or_false] at hw
+  rcases hw with rfl | rfl | rfl <;> decide
+example : PrescribedH (some (v 1 2 0)) {} none twoFlags { ver := v 1 2 0, avail := true, cur := true } :=
+  .current (fun h => absurd h.1 (by decide)) (by decide) rfl (by unfold Sel; decide)
+example : ¬PrescribedH (some (v 1 2 0)) {} none twoFlags { ver := v 1 3 0, avail := true, cur := true } := by
+  have hk : CurOkH (some (v 1 2 0)) {} none twoFlags :=
+    ⟨{ ver := v 1 2 0, avail := true, cur := true }, by decide, rfl, by unfold Sel; decide⟩
+  intro h
+  cases h with
+  | dev h1 => cases h1
+  | current _ _ h3 => exact absurd h3 (by decide)
+  | newestSelectable _ h2 => exact h2 hk
+  | newestStable _ h2 => exact h2 hk
+  | fallback _ h2 => exact h2 hk
 -- file names
 example : getVersionedPath (s "path/to/file.exe") (s "1.2.3-beta") = s "path/to/file_v1-2-3-beta.exe" := by decide
 example : getIdentifierAndVersion (s "path/to/file_v1-2-3-beta.exe") = some (s "path/to/file.exe", s "1.2.3-beta") := by decide
